@@ -120,8 +120,8 @@ func Layer(r *ev.Run) {
 	r.RequireAtLeast("mysql_owner_replies_equal_reference", 80)
 	r.RequireAtLeast("mysql_policy_fields_checked", 200)
 	r.RequireSetAtLeast("mysql_policies_observed", 3)
-	r.RequireAtLeast("mysql_mixed_fields_checked", 60)
-	r.RequireAtLeast("mysql_mixed_unrevealable_after_revealed_checked", 15)
+	r.RequireAtLeast("mysql_mixed_fields_checked", 300)
+	r.RequireAtLeast("mysql_mixed_unrevealable_after_revealed_checked", 80)
 }
 
 func session(r *ev.Run, rng *gen.Rand, sidx int) {
